@@ -87,6 +87,7 @@ pub struct RunState {
     /// frame_to_pointer log of the mapped view: (frame, allowed)
     pub ftp_log: Vec<(u64, bool)>,
     pub do_flush: bool,
+    pub rec_alias: bool,
 }
 
 static mut RUN: *mut RunState = core::ptr::null_mut();
@@ -401,6 +402,7 @@ pub fn call(step: &Step) -> Outcome {
     let view = r.view.clone();
     let root = r.model.root;
     let do_flush = r.do_flush;
+    let alias = r.rec_alias;
     let label = step.opname();
     let res = sut_call(label, || match &view {
         View::Offset { phys_offset } => {
@@ -409,6 +411,13 @@ pub fn call(step: &Step) -> Outcome {
         }
         View::Mapped => {
             let mut m = unsafe { MappedPageTable::new(&mut *p4_ptr(&view, root), SimMapping) };
+            dispatch(&mut m, step, do_flush)
+        }
+        View::Recursive { r: ri } if alias => {
+            // the documented contract of new_unchecked: an active level-4 table and its recursive
+            // index; the reference itself is the harness's own mapping of the table
+            let table = unsafe { &mut *(world().mem.commit(root) as *mut PageTable) };
+            let mut m = unsafe { RecursivePageTable::new_unchecked(table, x86_64::structures::paging::PageTableIndex::new(*ri)) };
             dispatch(&mut m, step, do_flush)
         }
         View::Recursive { .. } => {
@@ -438,6 +447,7 @@ pub fn call_many(steps: &[Step]) -> Result<Vec<Outcome>, String> {
     let r = run();
     let view = r.view.clone();
     let root = r.model.root;
+    let alias = r.rec_alias;
     sut_call("probe-set", || match &view {
         View::Offset { phys_offset } => {
             let mut m = unsafe { OffsetPageTable::new(&mut *p4_ptr(&view, root), VirtAddr::new(*phys_offset)) };
@@ -445,6 +455,11 @@ pub fn call_many(steps: &[Step]) -> Result<Vec<Outcome>, String> {
         }
         View::Mapped => {
             let mut m = unsafe { MappedPageTable::new(&mut *p4_ptr(&view, root), SimMapping) };
+            steps.iter().map(|s| dispatch(&mut m, s, false)).collect()
+        }
+        View::Recursive { r: ri } if alias => {
+            let table = unsafe { &mut *(world().mem.commit(root) as *mut PageTable) };
+            let mut m = unsafe { RecursivePageTable::new_unchecked(table, x86_64::structures::paging::PageTableIndex::new(*ri)) };
             steps.iter().map(|s| dispatch(&mut m, s, false)).collect()
         }
         View::Recursive { .. } => {
